@@ -81,9 +81,9 @@ def run(tier, seed):
     ck.add_mc(g2, "Gen_JsonStringUnesc(2 units)")
     ck.add_mc(g3, "Gen_JsonStringUnesc(3 units)")
     rr2 = vlib.run_harness(ck.binary, PROP, lit, seed=seed, tier=tier, shards=2, extra_args=["-noextra"])
-    os.unlink(lit)
     ck.absorb(rr2)
     ck.triage(rr2.divs, rerun=rr2.again)
+    os.unlink(lit)
     # code -> spec: recorded traces of the real Tokenizer validated by TLC
     for k in range(4 if thorough else 1):
         check_trace(ck, ck.binary, seed * 1000 + k, 3000 if thorough else 1500, vec)
